@@ -1,1 +1,5 @@
-/-! C03 — property theorems (stub; no obligations yet) -/
+import Ypv.Spec.Edit
+/-! C03 — property theorems (under construction) -/
+namespace Ypv.C03
+theorem placeholder : deletePositional (.scalar none .null) [] = .scalar none .null := rfl
+end Ypv.C03
